@@ -57,6 +57,7 @@ def alphabet():
         ops.append(["init", i])
         ops.append(["remove", i])
     ops += [["rekey", 0, 1], ["rekey", 0, 3], ["rekey", 1, 0], ["ucache"], ["session"], ["rmcache"]]
+    ops += [["reassign", 0], ["reassign", 1]]
     return ops
 
 
@@ -70,6 +71,8 @@ def rand_history(rng, n):
             ops.append(["remove", rng.randrange(N)])
         elif r < 0.6:
             ops.append(["rekey", rng.randrange(N), rng.randrange(N)])
+        elif r < 0.66:
+            ops.append(["reassign", rng.randrange(N)])
         elif r < 0.8:
             ops.append(["ucache"])
         elif r < 0.92:
@@ -269,6 +272,21 @@ def run_case(case, ctx):
                     project.open_job(sp_of(op[1])).remove()
                 elif k == "rekey":
                     project.open_job(sp_of(op[1])).sp.n = KS[op[2]]
+                elif k == "reassign":
+                    # open by id (a cache miss in a new session without cache file) and assign the state point the
+                    # job already has, as the FIRST state point access (e.g. a migration script run twice)
+                    # ... in a session of its own (the live session has usually seen every state point already)
+                    from harness.ws_common import ref_id as _rid
+                    p2 = signac.Project(path)
+                    j = p2.open_job(id=_rid(sp_of(op[1])))
+                    j.statepoint = sp_of(op[1])
+                    truth2 = raw_workspace(path)
+                    got2 = view(p2, truth2)
+                    if got2 != expected_view(truth2):
+                        bad2 = [x for x in expected_view(truth2) if got2.get(x) != expected_view(truth2)[x]]
+                        oracle.append("step %d %s: after assigning job %s the state point it already has (first access of a "
+                                      "handle opened by id), that session's view differs from the workspace in %s" % (
+                                          step, json.dumps(op), j.id[:8], bad2))
                 elif k == "ucache":
                     r = project.update_cache()
                     res = "none" if r is None else str(r)
@@ -332,11 +350,18 @@ def run_case(case, ctx):
                     os.rename(cache_fn + ".away", cache_fn)
             # correspondence token: result, ids in cache file, ids on disk
             cache, _ = read_cache_file(path)
-            itoks.append("%s:%s:%s" % (res, "-" if cache is None else ",".join(sorted(cache)), ",".join(sorted(truth))))
+            if k == "reassign":
+                itoks.append("obs")   # its model counterpart is the `observe` pseudo-op
+                if res not in ("ok", "KeyError"):
+                    oracle.append("%s: assigning a job the state point it already has raised %s" % (where, res))
+            else:
+                itoks.append("%s:%s:%s" % (res, "-" if cache is None else ",".join(sorted(cache)), ",".join(sorted(truth))))
             if k in ("init", "remove"):
                 mops.append("%s %s" % (k, enc_val(sp_of(op[1]))))
             elif k == "rekey":
                 mops.append("rekey %s %s %s" % (enc_val(sp_of(op[1])), "S" + hx("n"), enc_val(KS[op[2]])))
+            elif k == "reassign":
+                mops.append("observe")   # for the model: the session has (at most) learnt the job's state point
             else:
                 mops.append(k)
             # NOTE: the views above go through the live session and register state points in its cache; the
